@@ -47,6 +47,23 @@ CASES = [
       ("        dW_LP = tape.gradient(LP, self.predictor_model.trainable_variables)\n        dU_LA = tape.gradient(LA, self.adversary_model.trainable_variables)\n        dW_LA = tape.gradient(LA, self.predictor_model.trainable_variables)\n",
        "        dW_LA = tape.gradient(LA, self.predictor_model.trainable_variables)\n        dW_LP = tape.gradient(LP, self.predictor_model.trainable_variables)\n        dU_LA = tape.gradient(LA, self.adversary_model.trainable_variables)\n"),
       file=FF),
+    # ---- the norm that normalises dW_LA[i] (NormKind): spellings of the 2-norm of the flattened tensor
+    R("r-norm-method", "torch loop: `dW_LA[i].norm()`",
+      (T_UNIT, "            unit_dW_LA = dW_LA[i] / (dW_LA[i].norm() + torch.finfo(torch.float32).tiny)\n")),
+    R("r-norm-linalg", "torch loop: `torch.linalg.norm(dW_LA[i])` (no ord, no dim: 2-norm of the flattening)",
+      (T_UNIT, "            unit_dW_LA = dW_LA[i] / (torch.linalg.norm(dW_LA[i]) + torch.finfo(torch.float32).tiny)\n")),
+    R("r-norm-vector-norm", "torch loop: `torch.linalg.vector_norm(dW_LA[i])`",
+      (T_UNIT, "            unit_dW_LA = dW_LA[i] / (torch.linalg.vector_norm(dW_LA[i]) + torch.finfo(torch.float32).tiny)\n")),
+    R("r-norm-sqrt-sum", "torch loop: `torch.sqrt(torch.sum(dW_LA[i] * dW_LA[i]))` through a temporary",
+      (T_UNIT, "            squares = dW_LA[i] * dW_LA[i]\n            unit_dW_LA = dW_LA[i] / (torch.sqrt(torch.sum(squares)) + torch.finfo(torch.float32).tiny)\n")),
+    R("r-norm-p2", "torch loop: `torch.norm(dW_LA[i], p=2)` (explicit default order, no dim)",
+      (T_UNIT, "            unit_dW_LA = dW_LA[i] / (torch.norm(dW_LA[i], p=2) + torch.finfo(torch.float32).tiny)\n")),
+    R("r-norm-fro", "torch loop: `torch.norm(dW_LA[i], 'fro')`",
+      (T_UNIT, "            unit_dW_LA = dW_LA[i] / (torch.norm(dW_LA[i], 'fro') + torch.finfo(torch.float32).tiny)\n")),
+    R("r-tf-norm-euclidean", "tf loop: `tensorflow.norm(dW_LA[i], ord='euclidean')`",
+      (F_UNIT, "            unit_dW_LA = dW_LA[i] / (tensorflow.norm(dW_LA[i], ord='euclidean') + finfo(float32).tiny)\n"), file=FF),
+    R("r-tf-norm-sqrt", "tf loop: `tensorflow.sqrt(tensorflow.reduce_sum(tensorflow.square(dW_LA[i])))`",
+      (F_UNIT, "            unit_dW_LA = dW_LA[i] / (tensorflow.sqrt(tensorflow.reduce_sum(tensorflow.square(dW_LA[i]))) + finfo(float32).tiny)\n"), file=FF),
     # ------------------------------------------------------------------ semantic edits
     S("s-torch-inner", "torch loop: torch.sum(torch.inner(U, G))", (T_PROJ, "            proj = torch.sum(torch.inner(unit_dW_LA, dW_LP[i]))\n")),
     S("s-torch-tiny64", "torch loop: finfo(float).tiny", ("torch.finfo(torch.float32).tiny", "torch.finfo(float).tiny")),
@@ -59,4 +76,29 @@ CASES = [
     S("s-tf-loss", "tf: dW_LA differentiates LP", ("        dW_LA = tape.gradient(LA, self.predictor_model", "        dW_LA = tape.gradient(LP, self.predictor_model"), file=FF),
     S("s-tf-apply", "tf: adversary optimiser applies dW_LA", ("            zip(dU_LA, self.adversary_model.trainable_variables)", "            zip(dW_LA, self.adversary_model.trainable_variables)"), file=FF),
     S("s-tf-minus", "tf loop: alpha term sign", (F_GRAD, "            dW_LP[i] = dW_LP[i] - (proj * unit_dW_LA) + (self.base.alpha * dW_LA[i])\n"), file=FF),
+    # ---- the norm kind
+    S("s-norm-p1", "torch loop: `torch.norm(dW_LA[i], p=1)` (lifted as l1Flat: lifted_norm_is_frobenius breaks)",
+      (T_UNIT, "            unit_dW_LA = dW_LA[i] / (torch.norm(dW_LA[i], p=1) + torch.finfo(torch.float32).tiny)\n")),
+    S("s-norm-spectral", "torch loop: `torch.linalg.norm(dW_LA[i], 2)` = spectral norm on matrices (seeded C16a): refused",
+      (T_UNIT, "            unit_dW_LA = dW_LA[i] / (torch.linalg.norm(dW_LA[i], 2) + torch.finfo(torch.float32).tiny)\n")),
+    S("s-norm-dim0", "torch loop: `torch.norm(dW_LA[i], dim=0)` (per-column norms): refused",
+      (T_UNIT, "            unit_dW_LA = dW_LA[i] / (torch.norm(dW_LA[i], dim=0) + torch.finfo(torch.float32).tiny)\n")),
+    S("s-norm-absmax", "torch loop: `dW_LA[i].abs().max()` (lifted as maxAbs)",
+      (T_UNIT, "            unit_dW_LA = dW_LA[i] / (dW_LA[i].abs().max() + torch.finfo(torch.float32).tiny)\n")),
+    S("s-norm-nuc", "torch loop: `torch.norm(dW_LA[i], p='nuc')`: refused",
+      (T_UNIT, "            unit_dW_LA = dW_LA[i] / (torch.norm(dW_LA[i], p='nuc') + torch.finfo(torch.float32).tiny)\n")),
+    S("s-norm-matrix-norm", "torch loop: `torch.linalg.matrix_norm(dW_LA[i], 2)`: refused",
+      (T_UNIT, "            unit_dW_LA = dW_LA[i] / (torch.linalg.matrix_norm(dW_LA[i], 2) + torch.finfo(torch.float32).tiny)\n")),
+    S("s-norm-inf", "torch loop: `torch.norm(dW_LA[i], float('inf'))` (lifted as maxAbs)",
+      (T_UNIT, "            unit_dW_LA = dW_LA[i] / (torch.norm(dW_LA[i], float('inf')) + torch.finfo(torch.float32).tiny)\n")),
+    S("s-norm-of-lp", "torch loop: divides by the norm of dW_LP[i]",
+      (T_UNIT, "            unit_dW_LA = dW_LA[i] / (torch.norm(dW_LP[i]) + torch.finfo(torch.float32).tiny)\n")),
+    S("s-norm-abs-sum", "torch loop: `torch.sum(torch.abs(dW_LA[i]))` (lifted as l1Flat)",
+      (T_UNIT, "            unit_dW_LA = dW_LA[i] / (torch.sum(torch.abs(dW_LA[i])) + torch.finfo(torch.float32).tiny)\n")),
+    S("s-norm-keepdim", "torch loop: `torch.norm(dW_LA[i], p=2, dim=1, keepdim=True)` (row norms): refused",
+      (T_UNIT, "            unit_dW_LA = dW_LA[i] / (torch.norm(dW_LA[i], p=2, dim=1, keepdim=True) + torch.finfo(torch.float32).tiny)\n")),
+    S("s-tf-norm-ord1", "tf loop: `tensorflow.norm(dW_LA[i], ord=1)` (lifted as l1Flat)",
+      (F_UNIT, "            unit_dW_LA = dW_LA[i] / (tensorflow.norm(dW_LA[i], ord=1) + finfo(float32).tiny)\n"), file=FF),
+    S("s-tf-norm-axis", "tf loop: `tensorflow.norm(dW_LA[i], axis=0)`: refused",
+      (F_UNIT, "            unit_dW_LA = dW_LA[i] / (tensorflow.norm(dW_LA[i], axis=0) + finfo(float32).tiny)\n"), file=FF),
 ]
